@@ -475,4 +475,74 @@ theorem EInv.micro {s : Sys} (h : EInv s) (m : Micro) : EInv (microStep Rules.cu
 theorem EInv.of_started {s : Sys} (h : Started s) : EInv s :=
   ⟨SInv.of_started h, fun w a rs hm => by rw [h.evtQ w] at hm; simp at hm⟩
 
+/-! ### every spawn reply re-queues its caller -/
+
+theorem handleCmd_notified (R : Rules) (s : Sys) (i : Wid) (c : Cmd) :
+    ∀ x ∈ (handleCmdWith R s i c).spawnNotified, x ∈ s.spawnNotified ∨
+      (∃ caller p, c = .notifySpawn caller p ∧
+        (caller ∈ (s.wk i).spawning → ((s.wk i).procs caller).isSome = true → x.2.2 = true)) := by
+  intro x
+  cases c <;> simp only [handleCmdWith] <;> (repeat' split) <;> simp [Sys.setWk, Sys.pushEvt, Sys.setFault]
+  all_goals (intro h; rcases h with h | rfl <;> simp_all)
+
+theorem execStep_notified (s : Sys) (i : Wid) (fuel : Nat) (ordQ : List Pid) :
+    (QM.Sys.execStep s i fuel ordQ).spawnNotified = s.spawnNotified := (Shape.execStep s i fuel ordQ).spawnNotified
+theorem checkStep_notified (s : Sys) (i : Wid) (ordE : List Pid) :
+    (QM.Sys.checkStep s i ordE).spawnNotified = s.spawnNotified := (Shape.checkStep s i ordE).spawnNotified
+
+theorem envStep1_notified (combine) (s : Sys) (w : Wid) : (envStep1With combine s w).spawnNotified = s.spawnNotified := by
+  unfold envStep1With
+  split
+  · rfl
+  · rename_i e rest _
+    cases e with
+    | spawn c fn regs coloc => simp only [handleEventWith, handleSpawn]; split <;> rfl
+    | deliver t m => simp only [handleEventWith, handleDeliver]; split <;> rfl
+    | await a ts =>
+      simp only [handleEventWith, handleAwait]
+      split
+      · rfl
+      · generalize targetWorkers _ _ = ws
+        have : ∀ (ws : List Wid) (s0 : Sys) (g : Wid → Cmd), (ws.foldl (fun acc w => acc.pushCmd w (g w)) s0).spawnNotified = s0.spawnNotified := by
+          intro ws; induction ws with
+          | nil => intros; rfl
+          | cons w0 ws ih => intro s0 g; simp only [List.foldl_cons]; rw [ih]; rfl
+        rw [this]
+    | procResults a rs =>
+      simp only [handleEventWith, handleProcResultsWith]
+      repeat' split
+      all_goals rfl
+    | resultResp req r => rfl
+
+/-- all NotifySpawn commands applied so far found their caller parked and re-queued it -/
+def AllRequeued (s : Sys) : Prop := ∀ x ∈ s.spawnNotified, x.2.2 = true
+
+structure NInv (s : Sys) : Prop where
+  w : WInv s
+  all : AllRequeued s
+
+theorem NInv.micro {s : Sys} (h : NInv s) (m : Micro) : NInv (microStep Rules.current s m) := by
+  refine ⟨h.w.micro m, ?_⟩
+  cases m with
+  | env w => intro x hx; rw [show (microStep Rules.current s (.env w)).spawnNotified = s.spawnNotified from envStep1_notified _ s w] at hx; exact h.all x hx
+  | exec i fuel ordQ => intro x hx; rw [show (microStep Rules.current s (.exec i fuel ordQ)).spawnNotified = s.spawnNotified from execStep_notified s i fuel ordQ] at hx; exact h.all x hx
+  | check i ordE => intro x hx; rw [show (microStep Rules.current s (.check i ordE)).spawnNotified = s.spawnNotified from checkStep_notified s i ordE] at hx; exact h.all x hx
+  | tick ms => exact h.all
+  | cmd i =>
+    intro x hx
+    have hx' : x ∈ (cmdStep1With Rules.current s i).spawnNotified := hx
+    unfold cmdStep1With at hx'
+    split at hx'
+    · exact h.all x hx'
+    · rename_i c rest hq
+      rcases handleCmd_notified Rules.current _ i c x hx' with h1 | ⟨caller, p, hc, hflag⟩
+      · exact h.all x h1
+      · subst hc
+        have hparked : caller ∈ (s.wk i).spawning := spair_notify_parked h.w.pair (p := p) (by rw [hq]; simp)
+        obtain ⟨y, hy, _⟩ := (h.w.si.sched i).live caller (Or.inr (Or.inl hparked))
+        exact hflag hparked (by show ((s.wk i).procs caller).isSome = true; rw [hy]; rfl)
+
+theorem NInv.of_started {s : Sys} (h : Started s) : NInv s :=
+  ⟨WInv.of_started h, fun x hx => by rw [h.spawnNotified] at hx; simp at hx⟩
+
 end QM.Sys
